@@ -178,6 +178,49 @@ fn f64_3d(d: &mut Draw) -> Outcome {
     pass(if wide { "wide-scale" } else if ang.sin() < 0.3 { "up-near-dir" } else { "generic" }, true)
 }
 
+/// up along a coordinate axis - the usual "y up" (or x, or z), of either sign and any power-of-two length - and a view
+/// direction that is steep: 1e-12 .. 0.05 rad away from +-up. With an up vector that has a single non-zero component
+/// the side vector dir x up is formed without any cancellation, so the frame is orthonormal to a few ulps however
+/// steep the view is, and all entry points agree that closely. (The eye's components across the axis are kept at the
+/// size of the direction's, so that eye + d and (eye + d) - eye round harmlessly for the look_at forms.)
+macro_rules! steep_axis_up {
+    ($fname:ident, $F:ty, $tol:expr) => {
+        fn $fname(d: &mut Draw) -> Outcome {
+            type F = $F;
+            let k = d.below(3);
+            let (i, j) = ((k + 1) % 3, (k + 2) % 3);
+            let upl = (2.0f64).powi(d.int(-3, 3) as i32) * if d.bool() { 1.0 } else { -1.0 };
+            let mut up = [0.0 as F; 3];
+            up[k] = upl as F;
+            let h = d.f64_log(1e-12, 0.05);
+            let phi = d.f64_in(0.0, 2.0 * std::f64::consts::PI);
+            let along = if d.bool() { 1.0 } else { -1.0 };
+            let len = f_len(d, false);
+            let mut dn = [0.0f64; 3];
+            dn[k] = along * h.cos() * len;
+            dn[i] = h.sin() * phi.cos() * len;
+            dn[j] = h.sin() * phi.sin() * len;
+            let dir = Vector3::new(dn[0] as F, dn[1] as F, dn[2] as F);
+            let mut e = [0.0f64; 3];
+            if !d.chance(1, 4) {
+                e[k] = d.f64_in(-50.0, 50.0);
+                e[i] = d.f64_in(-1.0, 1.0) * h.sin() * len;
+                e[j] = d.f64_in(-1.0, 1.0) * h.sin() * len;
+            }
+            let eye = Point3::new(e[0] as F, e[1] as F, e[2] as F);
+            let upv = Vector3::new(up[0], up[1], up[2]);
+            d.note("eye", &eye);
+            d.note("dir", &dir);
+            d.note("up", &upv);
+            d.note("angle(dir, +-up)", &h);
+            vcore::tryo!(all_entry_points(eye, dir, dir.magnitude(), upv, upv.magnitude(), $tol));
+            pass(if h < 1e-8 { "steeper-than-1e-8-rad" } else if h < 1e-4 { "1e-8-to-1e-4-rad" } else { "1e-4-to-0.05-rad" }, true)
+        }
+    };
+}
+steep_axis_up!(steep_axis_up_f64, f64, 1e-13);
+steep_axis_up!(steep_axis_up_f32, f32, 1e-5);
+
 fn exact_2d(d: &mut Draw) -> Outcome {
     let (c, s) = circle_point::<Q>(d);
     let lam = Q::ratio(d.int(1, 12), d.int(1, 6));
@@ -240,6 +283,9 @@ pub fn property() -> Property {
     }
     add!("look_3d-Q", "Q", exact_3d, 3000, 200_000, 48, &[("generic", 100)], "eye, dir, up each with non-zero (dir, up: pairwise distinct) components; up not perpendicular to dir");
     add!("look_3d-f64", "f64", f64_3d, 4000, 200_000, 64, &[("generic", 200), ("up-near-dir", 50), ("wide-scale", 150)], "every generated triple (up at least 0.05 rad from +-dir)");
+    const STEEP: &[(&str, u32)] = &[("steeper-than-1e-8-rad", 100), ("1e-8-to-1e-4-rad", 100), ("1e-4-to-0.05-rad", 100)];
+    add!("look_3d_steep_axis_up-f64", "f64", steep_axis_up_f64, 4000, 200_000, 48, STEEP, "every generated triple (up on a coordinate axis, dir 1e-12 .. 0.05 rad from +-up)");
+    add!("look_3d_steep_axis_up-f32", "f32", steep_axis_up_f32, 4000, 200_000, 48, STEEP, "every generated triple (up on a coordinate axis, dir 1e-12 .. 0.05 rad from +-up)");
     add!("look_2d-Q", "Q", exact_2d, 4000, 200_000, 24, &[("up-left", 100), ("up-right", 100)], "up not parallel to dir; dir not axis-aligned");
     add!("look_2d-f64", "f64", f64_2d, 4000, 200_000, 24, &[("up-left", 100), ("up-right", 100)], "every generated pair");
     Property {
@@ -248,6 +294,7 @@ pub fn property() -> Property {
         subchecks: s,
         assumptions: &[
             "general position: dir != 0, up not parallel to dir (f64: at least 0.05 rad away; tolerance 1e-11 (1+|eye|+|d|+|up|)/sin(angle))",
+            "steep views: with up on a coordinate axis the construction involves no cancellation, so the 0.05 rad limit does not apply: dir 1e-12 .. 0.05 rad from +-up, tolerance 1e-13 (f64) / 1e-5 (f32) relative to the entries, for every entry point",
             "Q tier: dir = lambda f, up = alpha u + beta f for a rational orthonormal frame (r,u,f) taken from a rational unit quaternion, so that every normalisation and the matrix->quaternion step inside cgmath is exact",
             "the deprecated Transform::look_at has no documented handedness and is not part of the claim; Matrix4::look_at / look_at_dir / Matrix3::look_at are compared with the functions their deprecation notes name",
         ],
